@@ -300,6 +300,18 @@ class KeyHashType(StringType, prim='key_hash'):
 
 
 class SignatureType(StringType, prim='signature'):
+    def __lt__(self, other: 'SignatureType') -> bool:  # type: ignore
+        # Tezos compares signatures as bytes, whatever base58 notation (sig, edsig, spsig, p2sig, BLsig) is used
+        return base58_decode(self.value.encode()) < base58_decode(other.value.encode())
+
+    def __eq__(self, other) -> bool:  # type: ignore
+        if not isinstance(other, SignatureType):
+            return False
+        return base58_decode(self.value.encode()) == base58_decode(other.value.encode())
+
+    def __hash__(self):
+        return hash(base58_decode(self.value.encode()))
+
     @classmethod
     def dummy(cls, context: AbstractContext) -> 'SignatureType':
         return cls.from_value(context.get_dummy_signature())
